@@ -76,8 +76,29 @@ def runAll (cfg : Cfg) : World → List Step → List Json → List Json
       | .tick _ => Json.null
     runAll cfg W' rest (o :: acc)
 
+def entryJson (e : Entry) : Json :=
+  obj [("cid", ofNat e.cid), ("key", ofStr e.ikey), ("exp", ofNat e.expires), ("content", ofNat e.rc.content)]
+
+/-- a cache call at the level of `_CallStateCache`: `get(call_id, auth, now)` / `put(call_id, auth, resolved, now)` with
+    the cache's own `ttl` (ticks); what a hit does to the expiry follows the extracted shape -/
+def cacheOpOf (ttl : Nat) (j : Json) : R CacheOp := do
+  let op ← rawStr (← field j "op")
+  let cid ← natF j "cid"
+  let key ← strF j "key"
+  let now ← natF j "now"
+  match op with
+  | "get" => pure (.get cid key now (if Gen.C14.shape.hitRefreshes then some (now + ttl) else none))
+  | "put" => pure (.put cid key ⟨(← natF j "content"), none, 0⟩ (now + ttl))
+  | _ => throw s!"unknown cache op {op}"
+
 def handle (fn : String) (a : Json) : R Json := do
   match fn with
+  | "cacheOps" =>
+    let ttl ← natF a "ttl"
+    let ops ← (← arrF a "ops").mapM (cacheOpOf ttl)
+    let r := applyOps ⟨(← natF a "cap"), []⟩ ops
+    pure (obj [("results", ofList (r.2.map fun p => ofOpt ofNat (p.2.map (·.content)))),
+               ("entries", ofList (r.1.entries.map entryJson))])
   | "run" =>
     let cfg ← cfgOf a
     let caps ← (← arrF a "caps").mapM nat
